@@ -49,21 +49,19 @@ structure NameValue where
 deriving DecidableEq, Repr
 
 def encodeTag (ty : Ty) (v : Val) : NameValue :=
-  match ty, v with
-  | 'i', .int x => ⟨some (C12.int64ToBytes x), none⟩
-  | 's', .str s => ⟨some s, none⟩            -- convert.StringToBytes: "" ↦ non-nil empty
-  | 'b', .bin s => ⟨some s, none⟩            -- bytes.Clone: non-nil input ↦ non-nil (protocol never sends nil bytes)
-  | 'I', .intArr a => ⟨none, some (a.map C12.int64ToBytes)⟩
-  | 'A', .strArr a => ⟨none, some a⟩
-  | _, _ => ⟨none, none⟩
+  if ty = 'i' then (match v with | .int x => ⟨some (C12.int64ToBytes x), none⟩ | _ => ⟨none, none⟩)
+  else if ty = 's' then (match v with | .str s => ⟨some s, none⟩ | _ => ⟨none, none⟩)   -- convert.StringToBytes: "" ↦ non-nil empty
+  else if ty = 'b' then (match v with | .bin s => ⟨some s, none⟩ | _ => ⟨none, none⟩)   -- bytes.Clone of a non-nil slice
+  else if ty = 'I' then (match v with | .intArr a => ⟨none, some (a.map C12.int64ToBytes)⟩ | _ => ⟨none, none⟩)
+  else if ty = 'A' then (match v with | .strArr a => ⟨none, some a⟩ | _ => ⟨none, none⟩)
+  else ⟨none, none⟩
 
 def encodeField (ty : Ty) (v : Val) : NameValue :=
-  match ty, v with
-  | 'i', .int x => ⟨some (C12.int64ToBytes x), none⟩
-  | 'f', .flt x => ⟨some (beBytes 8 x.toNat), none⟩   -- convert.Float64ToBytes: big-endian bits
-  | 's', .str s => ⟨some s, none⟩
-  | 'b', .bin s => ⟨some s, none⟩
-  | _, _ => ⟨none, none⟩
+  if ty = 'i' then (match v with | .int x => ⟨some (C12.int64ToBytes x), none⟩ | _ => ⟨none, none⟩)
+  else if ty = 'f' then (match v with | .flt x => ⟨some (beBytes 8 x.toNat), none⟩ | _ => ⟨none, none⟩)  -- convert.Float64ToBytes
+  else if ty = 's' then (match v with | .str s => ⟨some s, none⟩ | _ => ⟨none, none⟩)
+  else if ty = 'b' then (match v with | .bin s => ⟨some s, none⟩ | _ => ⟨none, none⟩)
+  else ⟨none, none⟩
 
 /-- `marshalVarArray(dest, src)` appended part (same shape as `pbv1.marshalEntityValue`). -/
 def marshalVarArray (src : List Byte) : List Byte := C12.marshalEntityValue src
@@ -122,25 +120,24 @@ def decodeField (ty : Ty) (stored : Option (List Byte)) : Option Val :=
     else if ty = 'b' then some (.bin v)
     else none
 
-/-- What a reader sees for a tag written as `v` into a column of type `ty` (L0 of the value layer). -/
+/-- What a reader sees for a tag written as `v` into a column of type `ty` (L0 of the value layer):
+    the value itself, except that an array without elements comes back as null (finding F10) and a
+    value of another kind than the column is dropped to null at write time. -/
 def normTag (ty : Ty) (v : Val) : Val :=
-  match ty, v with
-  | 'i', .int x => .int x
-  | 's', .str s => .str s
-  | 'b', .bin s => .bin s
-  | 'I', .intArr a => if a.isEmpty then .null else .intArr a
-  | 'A', .strArr a => if a.isEmpty then .null else .strArr a
-  | _, _ => .null
+  if ty = 'i' then (match v with | .int x => .int x | _ => .null)
+  else if ty = 's' then (match v with | .str s => .str s | _ => .null)
+  else if ty = 'b' then (match v with | .bin s => .bin s | _ => .null)
+  else if ty = 'I' then (match v with | .intArr a => if a.isEmpty then .null else .intArr a | _ => .null)
+  else if ty = 'A' then (match v with | .strArr a => if a.isEmpty then .null else .strArr a | _ => .null)
+  else .null
 
+/-- … and for a field: null string/binary fields come back as empty (finding F10) -/
 def normField (ty : Ty) (v : Val) : Val :=
-  match ty, v with
-  | 'i', .int x => .int x
-  | 'f', .flt x => .flt x
-  | 's', .str s => .str s
-  | 'b', .bin s => .bin s
-  | 's', _ => .str []
-  | 'b', _ => .bin []
-  | _, _ => .null
+  if ty = 'i' then (match v with | .int x => .int x | _ => .null)
+  else if ty = 'f' then (match v with | .flt x => .flt x | _ => .null)
+  else if ty = 's' then (match v with | .str s => .str s | _ => .str [])
+  else if ty = 'b' then (match v with | .bin s => .bin s | _ => .bin [])
+  else .null
 
 /-! ## Rows, payload cells -/
 
@@ -501,15 +498,21 @@ def rowLess (q : Query) (a b : Row) : Bool :=
     if a.ts = b.ts then (if a.sid = b.sid then decide (a.ver > b.ver) else decide (a.sid < b.sid))
     else decide (a.ts > b.ts)
 
+/-- `loadData`: the rows of a block inside the query's time range (`timestamp.FindRange`) -/
+def rangeRows (q : Query) (b : Block) : List Row :=
+  b.rows.filter fun r => decide (q.tmin ≤ r.ts) && decide (r.ts ≤ q.tmax)
+
+/-- traversal order of a cursor: `idx` runs backwards for descending time -/
+def dirRows (q : Query) (b : Block) : List Row :=
+  if q.order = .timeDesc then (rangeRows q b).reverse else rangeRows q b
+
+/-- the cursor of one block: none when the series is not asked for or no row is in range -/
+def blockCursor (q : Query) (b : Block) : Option Cursor :=
+  if q.sids.contains b.sid then (if dirRows q b = [] then none else some (dirRows q b)) else none
+
 /-- the cursors `searchBlocks` + `loadData` produce for a part list -/
 def cursorsOf (q : Query) (parts : List (List Block)) : List Cursor :=
-  (parts.flatMap fun blocks =>
-    blocks.filterMap fun b =>
-      if q.sids.contains b.sid then
-        let rows := b.rows.filter fun r => decide (q.tmin ≤ r.ts) && decide (r.ts ≤ q.tmax)
-        let rows := if q.order = .timeDesc then rows.reverse else rows
-        if rows = [] then none else some rows
-      else none)
+  parts.flatMap fun blocks => blocks.filterMap (blockCursor q)
 
 /-- index of a `Less`-minimal cursor (first one on ties): stands for the heap root. -/
 def minIdxFrom (q : Query) : List Cursor → Nat → Nat → Row → Nat
@@ -638,8 +641,12 @@ def Table.query (t : Table) (q : Query) : List Row :=
 
 def Table.run (cfg : Cfg) (ops : List Op) : Table := ops.foldl (Table.step cfg) {}
 
-def written (ops : List Op) : List Row :=
-  ops.flatMap fun | .batch rows => rows | _ => []
+def opRows : Op → List Row
+  | .batch rows => rows
+  | _ => []
+
+/-- everything the batches of a history wrote -/
+def written (ops : List Op) : List Row := ops.flatMap opRows
 
 /-- the rows of `written` a query covers -/
 def covered (q : Query) (rows : List Row) : List Row :=
